@@ -72,23 +72,31 @@ pub fn dyn_time<G: TimeGetter<E> + 'static>(g: G) -> Reference<dyn TimeGetter<E>
 pub struct SimClock {
     pub cur: Rc<RefCell<TimeOutput<E>>>,
     pub gets: Rc<Cell<u64>>,
+    pub update_err: Rc<Cell<Option<u8>>>,
+    pub updates: Rc<Cell<u64>>,
 }
 #[derive(Clone)]
 pub struct ClockHandle {
     pub cur: Rc<RefCell<TimeOutput<E>>>,
     pub gets: Rc<Cell<u64>>,
+    pub update_err: Rc<Cell<Option<u8>>>,
+    pub updates: Rc<Cell<u64>>,
 }
 impl ClockHandle {
     pub fn new(t: i64) -> Self {
         ClockHandle {
             cur: Rc::new(RefCell::new(Ok(Time(t)))),
             gets: Rc::new(Cell::new(0)),
+            update_err: Rc::new(Cell::new(None)),
+            updates: Rc::new(Cell::new(0)),
         }
     }
     pub fn clock(&self) -> SimClock {
         SimClock {
             cur: self.cur.clone(),
             gets: self.gets.clone(),
+            update_err: self.update_err.clone(),
+            updates: self.updates.clone(),
         }
     }
     pub fn set(&self, v: TimeOutput<E>) {
@@ -106,6 +114,10 @@ impl TimeGetter<E> for SimClock {
 }
 impl Updatable<E> for SimClock {
     fn update(&mut self) -> NothingOrError<E> {
-        Ok(())
+        self.updates.set(self.updates.get() + 1);
+        match self.update_err.get() {
+            Some(k) => Err(Error::Other(k)),
+            None => Ok(()),
+        }
     }
 }
